@@ -104,6 +104,19 @@ CHECKS["C14"] = {
     "note": TRUST + " faster_hex's documented contract (fails only on an undersized destination) and slice::chunks are trusted.",
 }
 
+CHECKS["C15"] = {
+    "technique": "guard-fact dominance at the Box pointer cast, raw hand-over provenance + symbolic layout equality, callee-set (no allocation/copy) rule, by-value-type inventory of every frame of the boxed constructors",
+    "text": "Static analysis of the alloc feature: the Box<[T]> -> Box<GenericArray<T,N>> cast is reached only under len == N and LengthError only under len != N with the source still an ordinary owner; TryFrom<Vec> fills through extend only under len == N; the O(1) conversions are a raw round trip of the same pointer at offset 0 with length exactly N, equal symbolic layouts, and bodies free of allocating/copying callees and loops; into_vec/try_from_vec/TryFrom<Box<[T]>>/From for Vec and Box<[T]> are the documented delegation chains; in every boxed constructor (boxed generate + closure, default_boxed, try_boxed_from_iter, boxed from_iter, __from_vec_helper, try_from_vec, try_from_boxed_slice, into_boxed_slice, into_vec, Box IntoIterator) and their crate-local callees no local/temporary/argument/return place has a by-value type containing a GenericArray, so no stack frame of the crate ever holds the array. PARTIAL: allocator call counts, block addresses and actual stack consumption are run-time observations and are not claimed.",
+    "design_ref": "DESIGN.md §3 C15",
+    "note": TRUST + " Vec::from(Box<[T]>) / Vec::into_boxed_slice allocation reuse is std's documented behaviour.",
+}
+CHECKS["C16"] = {
+    "technique": "heap typestate on MIR: non-zero-size and null-check dominance at raw alloc sites, raw-owned window vs foreign calls, into_raw/from_raw provenance and symbolic layout equality; positive fixture keeps zero-instance rules non-vacuous",
+    "text": "Static heap-ownership rules over the alloc-feature code: every raw alloc::alloc::* call site is checked for (Z) size != 0 implied by the dominating facts with size = N*size_of T symbolic, (N) every use of the returned pointer on the non-null edge of a test whose other edge diverges into handle_alloc_error, (U) no foreign-code call between the allocation and the Box::from_raw that gives the block an owner; every Box::from_raw is fed by the Box::into_raw (or alloc) of the same block at offset 0 with equal symbolic size under the dominating facts and the same element type (so the block is released with the layout it was requested with); raw element writes are owner-counted (C04.W). The rules found three defects in Box<GenericArray>::generate (zero-size request for N = 0, missing null check, block leaked on panic), all fixed (known_findings.json); as the repaired tree has no raw alloc site, the same rules are run on a positive fixture on which Z, N and U must fire. What a real allocator does on failure needs execution and is not claimed.",
+    "design_ref": "DESIGN.md §3 C16",
+    "note": TRUST + " Box/Vec allocate, free and report failure correctly; zero-size Boxes never touch the allocator.",
+}
+
 NOT_APPLICABLE = {}
 
 PENDING = "check under construction in this round; see DESIGN.md"
